@@ -182,13 +182,27 @@ func runAttribution(c *Ctx) {
 			kindsOnly: []string{"txXid", "txCommit", "autoRows", "ddl", "txRollback"}}
 		h := genHistory(r, cfg, o)
 		// several tables share one table id: every table map re-announces the id, possibly for another table
-		mode := []string{"distinct-ids", "shared-id", "two-ids"}[hi%3]
+		mode := []string{"distinct-ids", "shared-id", "two-ids", "shared-id-same-name-other-db", "shared-id-same-db-other-name"}[hi%5]
 		for i := range h.tables {
 			switch mode {
 			case "shared-id":
 				h.tables[i].id = 77
 			case "two-ids":
 				h.tables[i].id = uint64(77 + i%2)
+			case "shared-id-same-name-other-db":
+				h.tables[i].id = 77
+				h.tables[i].db, h.tables[i].name = fmt.Sprintf("shop_%d", i), "orders"
+			case "shared-id-same-db-other-name":
+				h.tables[i].id = 77
+				h.tables[i].db, h.tables[i].name = "shop", fmt.Sprintf("orders_%d", i)
+			}
+		}
+		// the oracle's expected events carry the table names: refresh them
+		for ti := range h.txs {
+			for ei := range h.txs[ti].events {
+				if ev := &h.txs[ti].events[ei]; ev.tbl != nil {
+					ev.db, ev.table = ev.tbl.db, ev.tbl.name
+				}
 			}
 		}
 		// event bodies were built with the old ids: rebuild them
